@@ -39,12 +39,15 @@ Base(n) == LET b == [i \in DOMAIN n |-> IF IsWord(n[i]) THEN n[i] ELSE "_"] IN
 RECURSIVE JoinC(_, _)
 JoinC(parts, sep) == IF parts = <<>> THEN <<>> ELSE IF Len(parts) = 1 THEN parts[1] ELSE parts[1] \o sep \o JoinC(Tail(parts), sep)
 
+\* a string literal prints with its backslashes doubled (the texts of the model hold no quote characters and no control characters)
+RECURSIVE Escaped(_)
+Escaped(t) == IF t = <<>> THEN <<>> ELSE (IF Head(t) = "\\" THEN <<"\\", "\\">> ELSE <<Head(t)>>) \o Escaped(Tail(t))
 \* canonical formatting; names(q) gives the text printed for a quoted name
 RECURSIVE Render(_, _)
 Render(qtext(_), e) ==
   CASE e.k = "id" -> e.n
     [] e.k = "q" -> qtext(e.n)
-    [] e.k = "str" -> <<"'">> \o e.n \o <<"'">>
+    [] e.k = "str" -> <<"'">> \o Escaped(e.n) \o <<"'">>
     [] OTHER -> e.n \o <<"(">> \o JoinC([i \in DOMAIN e.args |-> Render(qtext, e.args[i])], <<",", " ">>) \o <<")">>
 Tick(n) == <<"`">> \o n \o <<"`">>
 NormalForm(e) == Render(Tick, e)
@@ -99,4 +102,61 @@ Impl(e) ==
   IN IF Variant = "pinned" THEN RestorePinned(sanitized, tab) ELSE RestoreFixed(sanitized, 1, tab)
 
 Faithful(e) == Impl(e) = NormalForm(e)
+
+(***************************************************************************)
+(* The scanner in front of the three steps (UNQUOTED_BACKTICK_MATCHER and  *)
+(* the loop of sanitize_variable_names): the source text is cut into       *)
+(* quoted names and everything else.                                       *)
+(* DOC: a string literal opens at a quote character outside a name and a   *)
+(* literal and closes at the next such character that no backslash         *)
+(* escapes; a quoted name opens at a backtick outside a literal and closes *)
+(* at the next backtick - whatever stands between the two, quote           *)
+(* characters included, is the name.                                       *)
+(* Variants "pinned" / "pinned-scan": the scanner of the pinned commit.    *)
+(* Its string pattern "(?:\\"|[^"])*" lets a backslash pass as an ordinary  *)
+(* character, so the literal closes at the first quote character that no   *)
+(* backslash PRECEDES (failing that, by backtracking, at the last one a    *)
+(* backslash precedes); a backtick is a token of its own and the text      *)
+(* between two backticks is cut into literals like any other text.         *)
+(***************************************************************************)
+Quotes == {"'", "\""}
+Seg(k, t) == [k |-> k, t |-> t]
+RECURSIVE StrEnd(_, _, _)       \* the closing quote of a literal whose content starts at i; 0: none
+StrEnd(t, i, q) == IF i > Len(t) THEN 0 ELSE IF t[i] = "\\" THEN StrEnd(t, i + 2, q) ELSE IF t[i] = q THEN i ELSE StrEnd(t, i + 1, q)
+SetMin(S) == CHOOSE x \in S : \A y \in S : x <= y
+SetMax(S) == CHOOSE x \in S : \A y \in S : x >= y
+PinnedEnd(t, i, q) ==
+  LET plain == {j \in i..Len(t) : t[j] = q /\ t[j - 1] # "\\"}
+      esc == {j \in (i + 1)..Len(t) : t[j] = q /\ t[j - 1] = "\\"}
+  IN IF plain # {} THEN SetMin(plain) ELSE IF esc # {} THEN SetMax(esc) ELSE 0
+RECURSIVE NextTick(_, _)
+NextTick(t, i) == IF i > Len(t) THEN 0 ELSE IF t[i] = "`" THEN i ELSE NextTick(t, i + 1)
+PinnedScanner == Variant \in {"pinned", "pinned-scan"}
+RECURSIVE Lex(_, _)             \* tokens: literal / name (fixed) / tick (pinned) / single character
+Lex(t, i) ==
+  IF i > Len(t) THEN <<>>
+  ELSE LET se == IF t[i] \in Quotes THEN (IF PinnedScanner THEN PinnedEnd(t, i + 1, t[i]) ELSE StrEnd(t, i + 1, t[i])) ELSE 0
+           te == IF t[i] = "`" /\ ~PinnedScanner THEN NextTick(t, i + 1) ELSE 0 IN
+       IF se # 0 THEN <<Seg("str", SubSeq(t, i, se))>> \o Lex(t, se + 1)
+       ELSE IF te # 0 THEN <<Seg("name", SubSeq(t, i + 1, te - 1))>> \o Lex(t, te + 1)
+       ELSE IF t[i] = "`" /\ PinnedScanner THEN <<Seg("tick", <<"`">>)>> \o Lex(t, i + 1)
+       ELSE <<Seg("ch", <<t[i]>>)>> \o Lex(t, i + 1)
+RECURSIVE CatSegs(_)
+CatSegs(ts) == IF ts = <<>> THEN <<>> ELSE Head(ts).t \o CatSegs(Tail(ts))
+RECURSIVE Group(_)              \* the loop of the pinned commit: a tick token collects everything up to the next tick token
+Group(ts) ==
+  IF ts = <<>> THEN <<>>
+  ELSE IF Head(ts).k # "tick" THEN <<Head(ts)>> \o Group(Tail(ts))
+  ELSE LET rest == Tail(ts)
+           close == {j \in DOMAIN rest : rest[j].k = "tick"} IN
+       IF close = {} THEN <<Seg("ch", <<"`">> \o CatSegs(rest))>>
+       ELSE LET j == SetMin(close) IN <<Seg("name", CatSegs(SubSeq(rest, 1, j - 1)))>> \o Group(SubSeq(rest, j + 1, Len(rest)))
+Scan(t) == Group(Lex(t, 1))
+ScannedNames(t) == LET sg == Scan(t) IN [i \in 1..Cardinality({j \in DOMAIN sg : sg[j].k = "name"}) |->
+                        sg[CHOOSE j \in DOMAIN sg : sg[j].k = "name" /\ Cardinality({u \in 1..j : sg[u].k = "name"}) = i].t]
+\* the scanner finds exactly the quoted names of the expression, occurrence by occurrence, in its canonical text ...
+ScanOK(e) == ScannedNames(NormalForm(e)) = QNames(e)
+\* ... and loses no character doing so
+ScanLossless(e) == LET sg == Scan(NormalForm(e)) IN
+                   CatSegs([i \in DOMAIN sg |-> IF sg[i].k = "name" THEN Seg("name", Tick(sg[i].t)) ELSE sg[i]]) = NormalForm(e)
 =============================================================================
